@@ -156,13 +156,20 @@ SnapDocs(e) == Concat([i \in DOMAIN snap[e] |-> files[snap[e][i]]])
 Newest == CHOOSE e \in DOMAIN snap : \A f \in DOMAIN snap : f <= e
 
 \* the documents are always all there: in the buffer, in the index's files, or in the inputs of the merge in flight
-Held == buffer \o Concat([i \in DOMAIN segIDs |-> files[segIDs[i]]])
-          \o (IF mg.ids # <<>> /\ ~mg.persisted THEN Concat([i \in DOMAIN mg.ids |-> files[mg.ids[i]]]) ELSE <<>>)
-O_NothingLost == Bag(Held) = Bag(all)
+\* (every document is inserted once, so "the same multiset" is "the same set and the same total length"; written
+\* with sets because TLC re-evaluates a concatenation at every use)
+SetOf(s) == {s[i] : i \in DOMAIN s}
+\* total number of documents in a set of files (no recursion: TLC re-evaluates the arguments of a recursive
+\* operator at every level when the formula is primed)
+SumLen(ids) == Cardinality(UNION {{<<id, i>> : i \in DOMAIN files[id]} : id \in ids})
+HeldIds == SetOf(segIDs) \cup (IF mg.ids # <<>> /\ ~mg.persisted THEN SetOf(mg.ids) ELSE {})
+O_NothingLost == /\ SetOf(buffer) \cup UNION {SetOf(files[id]) : id \in HeldIds} = SetOf(all)
+                 /\ Len(buffer) + SumLen(HeldIds) = Len(all)
 \* a snapshot only ever names files that exist and hold everything: an offline index is absent or complete
 O_SnapshotComplete == \A e \in DOMAIN snap :
       /\ \A i \in DOMAIN snap[e] : snap[e][i] \in DOMAIN files
-      /\ Bag(SnapDocs(e)) = Bag(all)
+      /\ UNION {SetOf(files[snap[e][i]]) : i \in DOMAIN snap[e]} = SetOf(all)
+      /\ SumLen({snap[e][i] : i \in DOMAIN snap[e]}) = Len(all)
 \* after Close: one snapshot, exactly its files in the directory, every handle released
 O_Closed == pc = "closed" =>
       /\ Cardinality(DOMAIN snap) = 1
